@@ -25,8 +25,8 @@ chained at the level of outcomes (`Chain` of links).
   `LkS.permLocal`, `LkS.localFnToAssign`, `LkE.injectGlobal`, `LkE.ofCtxEq` / `LkS.ofCtxEq`
   (contextual exact equalities), `LkE.ofEq` … (exact steps).
 * `HooksExact.toHeap` — exactly sound hooks that introduce no new references are heap hooks.
-* NOT covered: renumbering of tables / closures (`Heap/General.lean` states the missing invariance as
-  `renumbering_invariance : Prop`); re-declaration of a dropped / watched name (dead sets are
+* NOT covered here: renumbering of tables / closures — see stage 4, `Shared/VisitorSoundHeapV.lean`
+  (`HooksV`, `Visitor.visit_v`, `Sem.HeapV.renumbering_invariance`); re-declaration of a dropped / watched name (dead sets are
   flow-insensitive); hooks that are sound only where the processor's scope tracker is exact on a
   program that shadows a watched name (such programs are outside `NoRefB (watD cx) b`).
 -/
@@ -80,34 +80,84 @@ theorem HooksHeap.toRel (H : HooksHeap cx P) : HooksRel (heapFam cx) P where
   insertLocalVal := H.insertLocalVal
   insertLocalFn := H.insertLocalFn
 
-theorem Sem.Heap.watOK_watD (cx : Cx) : WatOK cx (watD cx) := fun n hn => by
-  obtain ⟨m, hm, he⟩ := List.mem_map.mp hn
-  cases he; exact hm
+theorem Sem.Heap.watOK_watD (cx : Cx) (hok : cx.Dok (watD cx)) : WatOK cx (watD cx) :=
+  ⟨fun n hn => by
+    obtain ⟨m, hm, he⟩ := List.mem_map.mp hn
+    cases he; exact hm, hok⟩
+
+/-- the side conditions of a run in a context: the initial dead set is in the context's class, the
+program neither declares nor assigns a watched global, the call-handler assumption holds at every
+level, the initial state has no cells, satisfies the facts, and its closures are self-related. All
+are trivial for `Cx.none` and `initState`. -/
+structure RunOK (cx : Cx) (b : Block) {N : NumOps} (ρ : ExtOracle N) (σ : State N) : Prop where
+  ok : cx.Dok (watD cx)
+  prog : NoRefB (watD cx) b
+  cf : ∀ n, cx.CF N (callClosure ρ n)
+  facts : ∀ p ∈ cx.G N, σ.getGlobal p.1 = p.2
+  fnFacts : ∀ p ∈ cx.F, FnGlobal σ p.1 p.2
+  cells : σ.cells = []
+  closures : Forall2 (CRel (HQ cx) cx emptyRel) σ.closures σ.closures
+
+/-- **General form.** A chain of closed-block links between whole programs preserves the observable
+outcome of a run from `σ` — or (only when `cx.upto`) the original exhausts its budget. -/
+theorem Sem.Heap.chain_runChunk' {b b' : Block} (h : Chain (LkB cx) b b') {N : NumOps} (ρ : ExtOracle N)
+    (n : Nat) (σ : State N) (hr : RunOK cx b ρ σ) :
+    (cx.upto = true ∧ observe (runChunk ρ n b σ) = .timeout) ∨
+      observe (runChunk ρ n b' σ) = observe (runChunk ρ n b σ) := by
+  induction h with
+  | refl => exact .inr rfl
+  | @cons a m c hl _ ih =>
+    obtain ⟨⟨D', hhr⟩, hb'⟩ := hl (watD cx) (watOK_watD cx hr.ok) hr.prog
+    have h1 := runChunk_hr' ρ hr.cf n hhr σ hr.facts hr.fnFacts hr.cells hr.closures
+    have h2 := ih { hr with prog := hb' }
+    rcases h1 with h1 | h1
+    · exact .inl h1
+    · rcases h2 with h2 | h2
+      · exact .inl ⟨h2.1, by rw [← h1]; exact h2.2⟩
+      · exact .inr (h2.trans h1)
+
+theorem RunOK.init {b : Block} {N : NumOps} (ρ : ExtOracle N) (externs : List String)
+    (hb : NoRefB (watD cx) b) (hG : ∀ p ∈ cx.G N, (initState externs : State N).getGlobal p.1 = p.2)
+    (hok : cx.Dok (watD cx)) (hF : cx.F = []) (hCF : ∀ n, cx.CF N (callClosure ρ n)) :
+    RunOK cx b ρ (initState externs) :=
+  ⟨hok, hb, hCF, hG, (by rw [hF]; intro p hp; cases hp), rfl, .nil⟩
 
 /-- a chain of closed-block links between whole programs preserves the observable outcome. `hb`: the
 program neither declares nor assigns a watched global; `hG`: the facts about watched globals hold
-initially. With the empty context (`Cx.none`) both are trivial. -/
+initially. With the empty context (`Cx.none`) both are trivial. For exact contexts (`cx.upto = false`). -/
 theorem Sem.Heap.chain_runProgram {b b' : Block} (h : Chain (LkB cx) b b') (hb : NoRefB (watD cx) b)
     {N : NumOps} (ρ : ExtOracle N) (n : Nat) (externs : List String)
-    (hG : ∀ p ∈ cx.G N, (initState externs : State N).getGlobal p.1 = p.2) :
+    (hG : ∀ p ∈ cx.G N, (initState externs : State N).getGlobal p.1 = p.2)
+    (hok : cx.Dok (watD cx) := by trivial) (hu : cx.upto = false := by rfl) (hF : cx.F = [] := by rfl)
+    (hCF : ∀ n, cx.CF N (callClosure ρ n) := by intros; trivial) :
     runProgram ρ n externs b' = runProgram ρ n externs b := by
-  induction h with
-  | refl => rfl
-  | cons hl _ ih =>
-    obtain ⟨⟨D', hr⟩, hb'⟩ := hl (watD cx) (watOK_watD cx) hb
-    exact (ih hb').trans (runProgram_hr ρ n externs hr hG)
+  rcases chain_runChunk' h ρ n _ (RunOK.init ρ externs hb hG hok hF hCF) with ⟨h1, _⟩ | h2
+  · rw [hu] at h1; cases h1
+  · exact h2
+
+/-- up-to-timeout contexts: same outcome unless the original exhausts its budget -/
+theorem Sem.Heap.chain_runProgram_upto {b b' : Block} (h : Chain (LkB cx) b b') (hb : NoRefB (watD cx) b)
+    {N : NumOps} (ρ : ExtOracle N) (n : Nat) (externs : List String)
+    (hG : ∀ p ∈ cx.G N, (initState externs : State N).getGlobal p.1 = p.2)
+    (hok : cx.Dok (watD cx) := by trivial) (hF : cx.F = [] := by rfl)
+    (hCF : ∀ n, cx.CF N (callClosure ρ n) := by intros; trivial) :
+    runProgram ρ n externs b = .timeout ∨ runProgram ρ n externs b' = runProgram ρ n externs b := by
+  rcases chain_runChunk' h ρ n _ (RunOK.init ρ externs hb hG hok hF hCF) with ⟨_, h1⟩ | h2
+  · exact .inl h1
+  · exact .inr h2
 
 /-- the same from any initial state without cells and closures in which the facts hold ("execution in a
 modified environment": e.g. the global `DEBUG` preset) -/
 theorem Sem.Heap.chain_runChunk {b b' : Block} (h : Chain (LkB cx) b b') (hb : NoRefB (watD cx) b)
     {N : NumOps} (ρ : ExtOracle N) (n : Nat) (σ : State N) (hG : ∀ p ∈ cx.G N, σ.getGlobal p.1 = p.2)
-    (hc : σ.cells = []) (hcl : σ.closures = []) :
+    (hc : σ.cells = []) (hcl : σ.closures = [])
+    (hok : cx.Dok (watD cx) := by trivial) (hu : cx.upto = false := by rfl) (hF : cx.F = [] := by rfl)
+    (hCF : ∀ n, cx.CF N (callClosure ρ n) := by intros; trivial) :
     observe (runChunk ρ n b' σ) = observe (runChunk ρ n b σ) := by
-  induction h with
-  | refl => rfl
-  | cons hl _ ih =>
-    obtain ⟨⟨D', hr⟩, hb'⟩ := hl (watD cx) (watOK_watD cx) hb
-    exact (ih hb').trans (runChunk_hr ρ n hr σ hG hc hcl)
+  rcases chain_runChunk' h ρ n σ
+    ⟨hok, hb, hCF, hG, (by rw [hF]; intro p hp; cases hp), hc, (by rw [hcl]; exact .nil)⟩ with ⟨h1, _⟩ | h2
+  · rw [hu] at h1; cases h1
+  · exact h2
 
 /-- decidable check of `NoRefB` -/
 theorem NoRefB.ofBool {D : List DName} {b : Block} (h : D.all (fun x => !b.refs x) = true) : NoRefB D b := by
@@ -123,21 +173,62 @@ theorem Visitor.visit_chain (H : HooksHeap cx P) (sc : Bool) (fuel : Nat) (pushe
 allocation-insensitive steps) ⇒ the visited program has the same observable outcome. -/
 theorem Visitor.visit_heap (H : HooksHeap cx P) (sc : Bool) (fuel : Nat) (pushes : Bool) (b : Block) (s : σ)
     (hb : NoRefB (watD cx) b) {N : NumOps} (ρ : ExtOracle N) (n : Nat) (externs : List String)
-    (hG : ∀ p ∈ cx.G N, (initState externs : State N).getGlobal p.1 = p.2) :
+    (hG : ∀ p ∈ cx.G N, (initState externs : State N).getGlobal p.1 = p.2)
+    (hok : cx.Dok (watD cx) := by trivial) (hu : cx.upto = false := by rfl) (hF : cx.F = [] := by rfl)
+    (hCF : ∀ n, cx.CF N (callClosure ρ n) := by intros; trivial) :
     runProgram ρ n externs (Visitor.visitBlock P sc fuel pushes b s).1 = runProgram ρ n externs b :=
-  chain_runProgram (Visitor.visit_chain H sc fuel pushes b s) hb ρ n externs hG
+  chain_runProgram (Visitor.visit_chain H sc fuel pushes b s) hb ρ n externs hG hok hu hF hCF
+
+/-- **Stage 3 lifting theorem, general form** (up to budget exhaustion when `cx.upto`; any initial
+state satisfying `RunOK`) -/
+theorem Visitor.visit_heap' (H : HooksHeap cx P) (sc : Bool) (fuel : Nat) (pushes : Bool) (b : Block) (s : σ)
+    {N : NumOps} (ρ : ExtOracle N) (n : Nat) (σ0 : State N) (hr : RunOK cx b ρ σ0) :
+    (cx.upto = true ∧ observe (runChunk ρ n b σ0) = .timeout) ∨
+      observe (runChunk ρ n (Visitor.visitBlock P sc fuel pushes b s).1 σ0) = observe (runChunk ρ n b σ0) :=
+  chain_runChunk' (Visitor.visit_chain H sc fuel pushes b s) ρ n σ0 hr
+
+theorem Visitor.visit_heap_upto (H : HooksHeap cx P) (sc : Bool) (fuel : Nat) (pushes : Bool) (b : Block) (s : σ)
+    (hb : NoRefB (watD cx) b) {N : NumOps} (ρ : ExtOracle N) (n : Nat) (externs : List String)
+    (hG : ∀ p ∈ cx.G N, (initState externs : State N).getGlobal p.1 = p.2)
+    (hok : cx.Dok (watD cx) := by trivial) (hF : cx.F = [] := by rfl)
+    (hCF : ∀ n, cx.CF N (callClosure ρ n) := by intros; trivial) :
+    runProgram ρ n externs b = .timeout ∨
+      runProgram ρ n externs (Visitor.visitBlock P sc fuel pushes b s).1 = runProgram ρ n externs b :=
+  chain_runProgram_upto (Visitor.visit_chain H sc fuel pushes b s) hb ρ n externs hG hok hF hCF
 
 theorem Visitor.runDefault_heap (H : HooksHeap cx P) (b : Block) (s : σ) (hb : NoRefB (watD cx) b)
     {N : NumOps} (ρ : ExtOracle N) (n : Nat) (externs : List String)
-    (hG : ∀ p ∈ cx.G N, (initState externs : State N).getGlobal p.1 = p.2) :
+    (hG : ∀ p ∈ cx.G N, (initState externs : State N).getGlobal p.1 = p.2)
+    (hok : cx.Dok (watD cx) := by trivial) (hu : cx.upto = false := by rfl) (hF : cx.F = [] := by rfl)
+    (hCF : ∀ n, cx.CF N (callClosure ρ n) := by intros; trivial) :
     runProgram ρ n externs (Visitor.runDefault P b s).1 = runProgram ρ n externs b :=
-  Visitor.visit_heap H false _ true b s hb ρ n externs hG
+  Visitor.visit_heap H false _ true b s hb ρ n externs hG hok hu hF hCF
+
+theorem Visitor.runDefault_heap_upto (H : HooksHeap cx P) (b : Block) (s : σ) (hb : NoRefB (watD cx) b)
+    {N : NumOps} (ρ : ExtOracle N) (n : Nat) (externs : List String)
+    (hG : ∀ p ∈ cx.G N, (initState externs : State N).getGlobal p.1 = p.2)
+    (hok : cx.Dok (watD cx) := by trivial) (hF : cx.F = [] := by rfl)
+    (hCF : ∀ n, cx.CF N (callClosure ρ n) := by intros; trivial) :
+    runProgram ρ n externs b = .timeout ∨
+      runProgram ρ n externs (Visitor.runDefault P b s).1 = runProgram ρ n externs b :=
+  Visitor.visit_heap_upto H false _ true b s hb ρ n externs hG hok hF hCF
 
 theorem Visitor.runScoped_heap (H : HooksHeap cx P) (b : Block) (s : σ) (hb : NoRefB (watD cx) b)
     {N : NumOps} (ρ : ExtOracle N) (n : Nat) (externs : List String)
-    (hG : ∀ p ∈ cx.G N, (initState externs : State N).getGlobal p.1 = p.2) :
+    (hG : ∀ p ∈ cx.G N, (initState externs : State N).getGlobal p.1 = p.2)
+    (hok : cx.Dok (watD cx) := by trivial) (hu : cx.upto = false := by rfl) (hF : cx.F = [] := by rfl)
+    (hCF : ∀ n, cx.CF N (callClosure ρ n) := by intros; trivial) :
     runProgram ρ n externs (Visitor.runScoped P b s).1 = runProgram ρ n externs b :=
-  Visitor.visit_heap H true _ true b s hb ρ n externs hG
+  Visitor.visit_heap H true _ true b s hb ρ n externs hG hok hu hF hCF
+
+theorem Visitor.runScoped_heap_upto (H : HooksHeap cx P) (b : Block) (s : σ) (hb : NoRefB (watD cx) b)
+    {N : NumOps} (ρ : ExtOracle N) (n : Nat) (externs : List String)
+    (hG : ∀ p ∈ cx.G N, (initState externs : State N).getGlobal p.1 = p.2)
+    (hok : cx.Dok (watD cx) := by trivial) (hF : cx.F = [] := by rfl)
+    (hCF : ∀ n, cx.CF N (callClosure ρ n) := by intros; trivial) :
+    runProgram ρ n externs b = .timeout ∨
+      runProgram ρ n externs (Visitor.runScoped P b s).1 = runProgram ρ n externs b :=
+  Visitor.visit_heap_upto H true _ true b s hb ρ n externs hG hok hF hCF
 
 /-! ### exact hooks are heap hooks when they introduce no identifier references -/
 
@@ -178,8 +269,8 @@ theorem HooksExact.toHeap (H : HooksExact P) (F : HooksNoRef P) : HooksHeap cx P
   afterBlock := fun e s => .single (.ofEq (H.afterBlock e s) (fun D _ => F.afterBlock e s D))
   scopeB := fun b s => .single (LkBo.ofEq (H.scopeB b none s) (fun D _ => F.scopeB b none s D)).toB
   scopeR := fun b c s => .single fun D _ hnb hnc =>
-    ⟨.rep (.stepB (H.scopeB b (some c) s) (.reflB (F.scopeB b (some c) s D hnb)))
-        (.stepE (H.scopeC b c s) (.reflE (F.scopeC b c s D hnc))),
+    ⟨.rep (.stepB (H.scopeB b (some c) s).le (.reflB (F.scopeB b (some c) s D hnb)))
+        (.stepE (H.scopeC b c s).le (.reflE (F.scopeC b c s D hnc))),
       F.scopeB b (some c) s D hnb, F.scopeC b c s D hnc⟩
   insert := H.insert
   insertLocalName := H.insertLocalName
@@ -323,4 +414,87 @@ example : (Visitor.runDefault processor sample ()).1 =
          .callStmt (.call (.var "f") none .tuple [.num 1])] none := rfl
 
 end Demo.InjectDebug
+/-! ## Worked instance (call facts, up to timeout): removing `assert(e)`
+
+A minimal `remove_assertions` in expression position: `assert(e)` becomes `e`. Context: `assert` is a
+watched global holding closure number 0, whose body is `function(...) return ... end` (the "modified
+environment" in which assertions hold); calling it spends one call level, so the step is sound only up
+to budget exhaustion of the original (`upto := true`). -/
+namespace Demo.DropAssert
+open Sem Sem.Heap
+
+def acx : Cx where
+  W := ["assert"]
+  G := fun _ => [("assert", .fn 0)]
+  sub := fun _ p hp => by simp only [List.mem_singleton] at hp; subst hp; simp
+  upto := true
+  F := [("assert", idBody)]
+  subF := fun p hp => by simp only [List.mem_singleton] at hp; subst hp; simp
+  CF := fun N call => ∀ (clo : Closure N) args σ, clo.body = idBody → clo.env = [] →
+    call clo args σ = .ok args σ ∨ call clo args σ = .timeout
+
+theorem idGlobal : IdGlobal acx "assert" 0 idBody where
+  watched := by simp [acx]
+  upto := rfl
+  isFn := fun _ => by simp [acx]
+  hasBody := by simp [acx]
+  runs := fun _ _ h => h
+
+def exprHook (e : Expr) (s : Unit) : Expr × Unit :=
+  match e with
+  | .call (.var "assert") none _ [a] => (a, s)
+  | _ => (e, s)
+
+def processor : Processor Unit := { expr := exprHook }
+
+theorem hooksHeap : HooksHeap acx processor where
+  expr := fun e s => by
+    simp only [processor, exprHook]
+    split
+    · next kd a =>
+      refine .single fun D _ hn => ?_
+      have ha : NoRefE D a := (NoRefEs.cons.mp (NoRefE.call.mp hn).2).1
+      exact ⟨.genE fun _ hq => SoundE.dropIdCall idGlobal (Heap.reflE hq a D ha), ha⟩
+    · exact .refl _
+
+/-- the modified environment: `assert` is the identity closure, closure number 0 -/
+def env0 (externs : List String) {N : NumOps} : State N :=
+  { (initState externs : State N) with
+    globals := ("assert", .fn 0) :: (initState externs : State N).globals
+    closures := [⟨idBody, [], []⟩] }
+
+/-- whole-pass theorem: same outcome in the modified environment, unless the original exhausts its budget -/
+theorem run_refines (b : Block) (hb : NoRefB [.wat "assert"] b) {N : NumOps} (ρ : ExtOracle N) (n : Nat)
+    (externs : List String) :
+    observe (runChunk ρ n b (env0 externs : State N)) = .timeout ∨
+      observe (runChunk ρ n (Visitor.runDefault processor b ()).1 (env0 externs)) =
+        observe (runChunk ρ n b (env0 externs)) := by
+  have hr : RunOK acx b ρ (env0 externs : State N) :=
+    { ok := trivial
+      prog := hb
+      cf := fun n clo args σ hb henv => callClosure_idBody ρ n clo args σ hb henv
+      facts := fun p hp => by
+        simp only [acx, List.mem_singleton] at hp; subst hp
+        simp [env0, State.getGlobal, lookupAssoc]
+      fnFacts := fun p hp => by
+        simp only [acx, List.mem_singleton] at hp; subst hp
+        exact ⟨0, ⟨idBody, [], []⟩, by simp [env0, State.getGlobal, lookupAssoc], rfl, rfl, rfl⟩
+      cells := rfl
+      closures := .cons (CRel.initSelf idBody (NoRefB.ofBool rfl |> fun h => NoRefF.mk.mpr ⟨fun _ _ => rfl, h⟩)) .nil }
+  rcases Visitor.visit_heap' hooksHeap false _ true b () ρ n _ hr with h | h
+  · exact .inl h.2
+  · exact .inr h
+
+/-- non-vacuity: `local function f(x) return assert(x) end; emit(f(1))` -/
+def sample : Block :=
+  .mk [.localFn .loc "f" (.mk [.mk "x" none] false none none [] []
+         (.mk [] (some (.ret [.call (.var "assert") none .tuple [.var "x"]])))),
+       .callStmt (.call (.var "emit") none .tuple [.call (.var "f") none .tuple [.num 1]])] none
+
+example : NoRefB [.wat "assert"] sample := NoRefB.ofBool rfl
+example : (Visitor.runDefault processor sample ()).1 =
+    .mk [.localFn .loc "f" (.mk [.mk "x" none] false none none [] [] (.mk [] (some (.ret [.var "x"])))),
+         .callStmt (.call (.var "emit") none .tuple [.call (.var "f") none .tuple [.num 1]])] none := rfl
+
+end Demo.DropAssert
 end DarkluaModel
